@@ -459,6 +459,63 @@ def run(ctx, col: Collector):
         col.floor('C03-db', 'ordering obligations', n, 3)
     guarded(col, 'C03-db', 'ordering', ordering_keeps_all)
 
+    def note_owner():
+        # "table and column notes become COMMENT ON statements addressing the same qualified table": render_note takes the addressed element from note.parent,
+        # and the note setter re-points `parent`.  The elements whose parent decides a COMMENT ON target must therefore hold a Note of their own: a constructor
+        # that stores the caller's Note object lets a second element re-point the note of the first.
+        rn = idx.func('pydbml.renderer.sql.default.note', 'render_note')
+        model = [a.arg for a in rn.node.args.args][0]
+        owners = []
+        for n in ast.walk(rn.node):
+            if isinstance(n, ast.Call) and norm(n.func) == 'isinstance' and len(n.args) == 2 and norm(n.args[0]) == f'{model}.parent':
+                cs = n.args[1].elts if isinstance(n.args[1], (ast.Tuple, ast.List)) else [n.args[1]]
+                owners += [norm(c).split('.')[-1] for c in cs]
+        owners = sorted(set(owners))
+        col.floor('C03-note-owner', 'element kinds whose note names them in COMMENT ON', len(owners), 2)
+        for cname in owners:
+            ci = next((c for c in idx.classes.values() if c.name == cname and c.module.startswith('pydbml._classes')), None)
+            if ci is None:
+                col.unk('C03-note-owner', f'{cname}:class', f'class {cname} not found')
+                continue
+            init = ci.methods.get('__init__')
+            file = ci.module.replace('.', '/') + '.py'
+            via = [n for n in walk_no_nested(init.node) if isinstance(n, ast.Assign) and norm(n.targets[0]) in ('self.note', 'self._note')] if init else []
+            if not via:
+                col.unk('C03-note-owner', f'{cname}.__init__:note-of-its-own', f'{cname}.__init__ does not assign self.note', node=ci.node, file=file)
+                continue
+            params = {a.arg for a in init.node.args.args[1:]} | {a.arg for a in init.node.args.kwonlyargs}
+            single: Dict[str, list] = {}
+            for n in walk_no_nested(init.node):
+                if isinstance(n, ast.Assign) and len(n.targets) == 1 and isinstance(n.targets[0], ast.Name):
+                    single.setdefault(n.targets[0].id, []).append(n.value)
+
+            def arms(e, depth=0):
+                if isinstance(e, ast.IfExp):
+                    return arms(e.body, depth) + arms(e.orelse, depth)
+                if isinstance(e, ast.BoolOp) and isinstance(e.op, ast.Or):
+                    return [a for v in e.values for a in arms(v, depth)]
+                if isinstance(e, ast.Name) and e.id not in params and len(single.get(e.id, [])) == 1 and depth < 3:
+                    return arms(single[e.id][0], depth + 1)
+                return [e]
+            for a_ in via:
+                verdicts = []
+                for arm in arms(a_.value):
+                    if isinstance(arm, ast.Call) and norm(arm.func).split('.')[-1] == 'Note':
+                        verdicts.append('ok')
+                    elif isinstance(arm, ast.Name) and arm.id in params:
+                        verdicts.append('bad')
+                    else:
+                        verdicts.append('unk')
+                cons2 = f'{cname}.__init__:note-of-its-own'
+                if 'bad' in verdicts:
+                    col.bad('C03-note-owner', cons2, f'{cname}.__init__ can store the very Note object it was given (`{norm(a_.value)}`): the setter re-points its parent, so a '
+                            f'{cname} constructed earlier with the same Note emits COMMENT ON for the other element and none for itself', node=a_, file=file)
+                elif 'unk' in verdicts:
+                    col.unk('C03-note-owner', cons2, f'{cname}.__init__ stores `{norm(a_.value)}` as its note; cannot tell whether that is a Note created here', node=a_, file=file)
+                else:
+                    col.ok('C03-note-owner', cons2, f'{cname}.__init__ wraps the given note in a Note of its own (`{norm(a_.value)}`)', node=a_, file=file)
+    guarded(col, 'C03-note-owner', 'note-owner', note_owner)
+
 
 def derives_from(fn: ast.AST, e: ast.AST, path: str, depth: int = 0) -> bool:
     """Does the value of e come from the access path (directly, through str methods, or through single-assignment locals)?"""
